@@ -521,3 +521,13 @@ def postfix_chain_start(toks: list[Tok], dot: int, lo: int) -> int:
             return j
         return j + 1
     return j + 1
+
+
+def list_items(src: str, kinds=('struct', 'enum', 'type')):
+    """(kind, name) of every top-level item of the given kinds, in source order."""
+    toks = tokenize(src)
+    out = []
+    for first, proper, kw, end in _block_items(src, toks, 0, len(toks)):
+        if toks[kw].text in kinds:
+            out.append((toks[kw].text, toks[kw + 1].text))
+    return out
